@@ -119,6 +119,18 @@ def build(o, rng):
         return a, b
     if k == "tensor":
         return mg.tensor(a, constant=o["const"], copy=False), b
+    if k == "tview":
+        # a tensor that is a *view*, reached from a Fortran-ordered base through a layout-dependent reshape:
+        # X.T.reshape(-1)[:n].reshape(shape) with X of shape (2, n) in F order.  NumPy twin: the same chain on arrays.
+        n = a.size
+        if n == 0:
+            return mg.tensor(a, constant=o["const"], copy=False), b
+        flat = np.concatenate([a.reshape(-1), a.reshape(-1)])
+        xa = np.asfortranarray(flat.reshape(n, 2).T)
+        xb = np.copy(xa, order="K")
+        shape = tuple(o["shape"])
+        t = mg.tensor(xa, constant=o["const"])
+        return t.T.reshape(-1)[:n].reshape(shape), xb.T.reshape(-1)[:n].reshape(shape)
     raise KeyError(k)
 
 
@@ -126,6 +138,8 @@ def o_short(o):
     k = o["k"]
     if k in ("pybool", "pyint", "pyfloat"):
         return k
+    if k == "tview":  # a tensor (that happens to be a view): same operand class in failure signatures
+        k = "tensor"
     return f"{k}:{o['dt']}"
 
 
@@ -252,16 +266,20 @@ def run_side(desc, side, seed, track=True):
     rng = random.Random(_case_seed(desc, seed))
     objs = {}
     ops = []
-    for o in desc["operands"]:
-        m, n = build(o, rng)
-        ops.append(m if side == "mg" else n)
-    kwd = dict(desc.get("kwargs", {}))
-    for special in ("where", "out"):
-        if special in kwd:
-            m, n = build(kwd[special], rng)
-            if special == "where" and isinstance(m, Tensor):
-                m = m.data
-            objs["_" + special] = (m, n)
+    # with tracking off the operands are built with tracking off as well: a tensor-view operand built while tracking
+    # is on has locked (read-only) memory, and NumPy refuses `out=` on a read-only array just as MyGrad then does
+    import contextlib
+    with (mg.no_autodiff if (side == "mg" and not track) else contextlib.nullcontext()):
+        for o in desc["operands"]:
+            m, n = build(o, rng)
+            ops.append(m if side == "mg" else n)
+        kwd = dict(desc.get("kwargs", {}))
+        for special in ("where", "out"):
+            if special in kwd:
+                m, n = build(kwd[special], rng)
+                if special == "where" and isinstance(m, Tensor):
+                    m = m.data
+                objs["_" + special] = (m, n)
     kw = _resolve_kwargs(kwd, rng, side, objs)
     try:
         if side == "mg" and not track:
@@ -504,6 +522,8 @@ BCAST = [((), (3,)), ((2, 3), (3,)), ((2, 1), (1, 3)), ((2, 3), ()), ((0,), ()),
 
 def r_operand(rng, shape, dt=None, kinds=("tensor", "tensor", "array")):
     k = rng.choice(kinds)
+    if k == "tensor" and rng.random() < 0.1:
+        k = "tview"
     dt = dt or rng.choice(DT_TV)
     lay = rng.choice(["c", "c", "s", "t", "n"]) if len(shape) >= 1 and all(shape) else "c"
     return od(k, dt, shape, lay)
@@ -554,7 +574,7 @@ def gen_ufunc(rng, name, nin, n):
                 if rng.random() < 0.6:
                     kw["out"] = od("array", rng.choice(["f32", "f64"]), res_shape)
             elif r < 0.55:
-                kw["out"] = od(rng.choice(["array", "tensor"]), rng.choice(["f32", "f64"]), res_shape,
+                kw["out"] = od(rng.choice(["array", "tensor", "tview"]), rng.choice(["f32", "f64"]), res_shape,
                                const=rng.choice([None, True]))
         out.append({"cat": "ufunc", "name": name, "route": route, "operands": ops, "kwargs": kw, "track": "both"})
     return out
@@ -722,8 +742,8 @@ def gen_misc(rng, n):
                 b["k"] = "pyint"
         ckw = {}
         if rng.random() < 0.3:
-            shp = _bshape(_bshape(tuple(a["shape"]), tuple(lo["shape"]) if lo["k"] in ("tensor", "array") else ()),
-                          tuple(hi["shape"]) if hi["k"] in ("tensor", "array") else ())
+            shp = _bshape(_bshape(tuple(a["shape"]), tuple(lo["shape"]) if lo["k"] in ("tensor", "tview", "array") else ()),
+                          tuple(hi["shape"]) if hi["k"] in ("tensor", "tview", "array") else ())
             ckw["out"] = od(rng.choice(["array", "tensor"]), "f64", shp, const=True)
         out.append({"cat": "multi", "name": "clip", "route": rng.choice(["func", "np", "method"]), "operands": [a, lo, hi], "args": [],
                     "kwargs": ckw, "track": "both"})
